@@ -115,7 +115,7 @@ pub ghost enum Ev {
     Pure,                                              // no memory effect
     Write { base: Base, lo: int, hi: int, val: Den },   // bytes [lo, hi) of the object `base` written with the value `val`
     Read { base: Base, lo: int, hi: int },
-    Call { callee: int },
+    Call { name: Seq<char>, args: Seq<Den> },      // call of an external function by name
     Trap,
     Control,                                            // jump / brif / switch_to_block / seal
     NewSlot { slot: int, size: int },
@@ -158,14 +158,41 @@ impl StackSlotData {
 pub struct FunctionBuilder {
     pub log: Ghost<Seq<Ev>>,
     pub slots: Ghost<Map<int, int>>,      // stack slot id -> size in bytes
+    // control flow (see clif_cf.rs): the conditions known to hold whenever control is at the
+    // current insertion point, and for every emitted event the conditions that held there
+    pub facts: Ghost<Seq<Cond>>,
+    pub guards: Ghost<Seq<Seq<Cond>>>,
+    pub pending: Ghost<Map<int, Seq<Cond>>>,   // block id -> conditions on its (single) incoming edge
+    pub blocks: Ghost<Set<int>>,               // ids of the blocks created so far
+    pub func: FuncHandle,
 }
+/// "value v is non-zero" (truth) / "value v is zero" (!truth)
+pub ghost struct Cond { pub v: Den, pub truth: bool }
+#[derive(Clone, Copy)]
+pub struct FuncHandle { pub _p: u8 }
 
-pub struct Ins { pub ev: Ghost<Ev> }
+/// b1 is b0 with only value computations (no memory effect, no call, no control flow) added
+pub open spec fn pure_ext(b0: FunctionBuilder, b1: FunctionBuilder) -> bool {
+    &&& b0.log@.len() <= b1.log@.len()
+    &&& b1.guards@.len() - b1.log@.len() == b0.guards@.len() - b0.log@.len()
+    &&& forall|i: int| 0 <= i < b0.log@.len() ==> #[trigger] b1.log@[i] == b0.log@[i]
+    &&& forall|i: int| 0 <= i < b0.guards@.len() && i < b1.guards@.len() ==> #[trigger] b1.guards@[i] == b0.guards@[i]
+    &&& forall|i: int| b0.log@.len() <= i < b1.log@.len() ==> #[trigger] b1.log@[i] is Pure
+    &&& b1.facts == b0.facts && b1.pending == b0.pending && b1.blocks == b0.blocks && b1.slots == b0.slots
+}
+pub struct Ins { pub ev: Ghost<Ev>, pub cur_facts: Ghost<Seq<Cond>>, pub pos: Ghost<int> }
+/// what a load of `bits` bits at offset `off` of object `base` returns when it is the
+/// `pos`-th event of the function (uninterpreted: memory contents are not modelled; callers
+/// state what they rely on, e.g. "a slice holds a length and then a pointer", as preconditions)
+pub uninterp spec fn load_den(base: Base, off: int, bits: int, pos: int) -> Den;
 
 impl FunctionBuilder {
     #[verifier::external_body]
     pub fn ins(&mut self) -> (r: Ins)
-        ensures final(self).log@ == old(self).log@.push(r.ev@), final(self).slots == old(self).slots
+        ensures final(self).log@ == old(self).log@.push(r.ev@), final(self).slots == old(self).slots,
+            final(self).facts == old(self).facts, final(self).pending == old(self).pending, final(self).blocks == old(self).blocks,
+            final(self).guards@ == old(self).guards@.push(old(self).facts@),
+            r.cur_facts@ == old(self).facts@, r.pos@ == old(self).log@.len(),
     { unimplemented!() }
 
     #[verifier::external_body]
@@ -174,6 +201,8 @@ impl FunctionBuilder {
             !old(self).slots@.dom().contains(r.id as int),
             final(self).slots@ == old(self).slots@.insert(r.id as int, data.size as int),
             final(self).log@ == old(self).log@.push(Ev::NewSlot { slot: r.id as int, size: data.size as int }),
+            final(self).facts == old(self).facts, final(self).pending == old(self).pending, final(self).blocks == old(self).blocks,
+            final(self).guards@ == old(self).guards@.push(old(self).facts@),
     { unimplemented!() }
 
     // "Optimised memcpy or memmove for small copies": loads `size` bytes from `src` and
@@ -188,6 +217,8 @@ impl FunctionBuilder {
             final(self).log@ == old(self).log@
                 .push(Ev::Read { base: ptr_base(src), lo: ptr_off(src), hi: ptr_off(src) + size })
                 .push(Ev::Write { base: ptr_base(dest), lo: ptr_off(dest), hi: ptr_off(dest) + size, val: Den::Blob }),
+            final(self).facts == old(self).facts, final(self).pending == old(self).pending, final(self).blocks == old(self).blocks,
+            final(self).guards@ == old(self).guards@.push(old(self).facts@).push(old(self).facts@),
     { unimplemented!() }
     // "Writes `size` bytes of i8 value `ch` to memory starting at `buffer`"
     #[verifier::external_body]
@@ -198,6 +229,8 @@ impl FunctionBuilder {
             final(self).slots == old(self).slots,
             final(self).log@ == old(self).log@
                 .push(Ev::Write { base: ptr_base(buffer), lo: ptr_off(buffer), hi: ptr_off(buffer) + size, val: Den::Blob }),
+            final(self).facts == old(self).facts, final(self).pending == old(self).pending, final(self).blocks == old(self).blocks,
+            final(self).guards@ == old(self).guards@.push(old(self).facts@),
     { unimplemented!() }
 }
 
@@ -230,7 +263,7 @@ impl Ins {
     #[verifier::external_body]
     pub fn stack_load(self, ty: types::Type, slot: StackSlot, off: i32) -> (r: Value)
         ensures self.ev@ == (Ev::Read { base: Base::Slot(slot.id as int), lo: off as int, hi: off + ty.bits_ / 8 }),
-            den_bytes(r.den@) == ty.bits_ / 8,
+            den_bytes(r.den@) == ty.bits_ / 8, r.den@ == load_den(Base::Slot(slot.id as int), off as int, ty.bits_ as int, self.pos@),
             ty.is_float ==> is_float_of(r.den@, ty.bits_ as nat), !ty.is_float ==> (r.den@ is Addr || is_int_of(r.den@, ty.bits_ as nat)),
     { unimplemented!() }
     // "Get the address of a stack slot"
@@ -247,7 +280,7 @@ impl Ins {
     #[verifier::external_body]
     pub fn load(self, ty: types::Type, flags: MemFlags, p: Value, off: i32) -> (r: Value)
         ensures self.ev@ == (Ev::Read { base: ptr_base(p), lo: ptr_off(p) + off, hi: ptr_off(p) + off + ty.bits_ / 8 }),
-            den_bytes(r.den@) == ty.bits_ / 8,
+            den_bytes(r.den@) == ty.bits_ / 8, r.den@ == load_den(ptr_base(p), ptr_off(p) + off, ty.bits_ as int, self.pos@),
             ty.is_float ==> is_float_of(r.den@, ty.bits_ as nat), !ty.is_float ==> (r.den@ is Addr || is_int_of(r.den@, ty.bits_ as nat)),
     { unimplemented!() }
     // "Add immediate integer": on a pointer it moves the offset inside the same object
@@ -263,9 +296,12 @@ impl Ins {
     // ---- integer arithmetic: "wrapping", i.e. modulo 2^B ----
     #[verifier::external_body]
     pub fn iadd(self, x: Value, y: Value) -> (r: Value)
-        requires x.den@ is Int, y.den@ is Int, x.den@->Int_bits == y.den@->Int_bits
+        requires y.den@ is Int, x.den@ is Int ==> x.den@->Int_bits == y.den@->Int_bits, x.den@ is Int || x.den@ is Addr
         ensures self.ev@ is Pure,
-            r.den@ == (Den::Int { bits: x.den@->Int_bits, val: tc(x.den@->Int_bits, (x.den@->Int_val + y.den@->Int_val) as int) })
+            x.den@ is Int ==> r.den@ == (Den::Int { bits: x.den@->Int_bits, val: tc(x.den@->Int_bits, (x.den@->Int_val + y.den@->Int_val) as int) }),
+            // pointer + byte offset stays inside the same object (no wrap-around is assumed
+            // for in-bounds offsets)
+            x.den@ is Addr ==> r.den@ == (Den::Addr { base: ptr_base(x), off: ptr_off(x) + y.den@->Int_val }),
     { unimplemented!() }
     #[verifier::external_body]
     pub fn isub(self, x: Value, y: Value) -> (r: Value)
